@@ -15,8 +15,7 @@ import (
 // Engine A part of C15: a few threads, each owning one file of the SAME pool,
 // run short scripts concurrently. Scheduling points: every atomic operation on
 // the quota counters (sync/atomic shim), every Lock of the bitmap allocator,
-// every call into the fake base pool / every write to the fake device, and
-// one explicit point between two calls of a thread.
+// every call into the fake base pool and every write to the fake device.
 //
 // The pool is shared, file handles are not (FileReadWriter handles are not
 // thread-safe and the repository never shares them).
@@ -148,6 +147,17 @@ func (q *conc) others(i int) (sum res, fault bool) {
 	return sum, q.th[i].fault
 }
 
+// resetAt declares the local state of the calling thread at a scheduling
+// point of the fake base pool.
+func (q *conc) resetAt(label string) {
+	t := q.x.Current()
+	for _, th := range q.th {
+		if th.thr == t && t != nil {
+			q.x.ResetLocal(fmt.Sprintf("%d/%s", th.pc, label))
+		}
+	}
+}
+
 // noteFault is called by the fake base pool when it fails a call.
 func (q *conc) noteFault() {
 	t := q.x.Current()
@@ -174,6 +184,23 @@ func usedSectors(fs *fileSt) (n int, sectors []uint32) {
 		}
 	}
 	return n, info.Sectors
+}
+
+// blockLen is the size of the block device backed file behind a handle (0
+// once it is closed), read through the dump hook: safe while the owning
+// thread is parked inside a call.
+func blockLen(fs *fileSt) int {
+	info := rpool.VerifFileState(fs.f)
+	if info.HasQuota {
+		if info.Inner == nil {
+			return 0
+		}
+		info = rpool.VerifFileState(info.Inner)
+	}
+	if !info.HasBlock {
+		return 0
+	}
+	return int(info.SizeBytes)
 }
 
 func (q *conc) settled(fs *fileSt) res {
@@ -345,6 +372,14 @@ func (q *conc) exec(i int, op cop) {
 			// instant of the call.
 			lb[1] = size
 			lb[2] = 0
+			if s.alloc != nil {
+				_, sectors := usedSectors(fs)
+				for idx, sec := range sectors {
+					if sec != 0 && idx*s.cfg.ss < size {
+						lb[2]++
+					}
+				}
+			}
 		}
 		q.begin(i, lb, ub)
 		err := fs.f.Truncate(int64(size))
@@ -391,14 +426,11 @@ func (q *conc) exec(i int, op cop) {
 func (q *conc) run(i int) {
 	th := q.th[i]
 	for pc, op := range th.script {
-		// The thread's local state is its script position; everything
-		// else (file, model, bookkeeping) is part of the global key.
-		q.x.ResetLocal(fmt.Sprint(pc))
-		if pc > 0 {
-			q.x.Point("next-call")
-			q.x.ResetLocal(fmt.Sprint(pc))
-		}
+		// Between two calls the thread's local state is its script
+		// position; everything else (file, model, bookkeeping) is part of
+		// the global key.
 		th.pc = pc
+		q.x.ResetLocal(fmt.Sprint(pc))
 		q.exec(i, op)
 		if q.x.Failed() {
 			return
@@ -442,6 +474,10 @@ func (q *conc) monitor() {
 		for k, rem := range []uint64{fr, br} {
 			limit := []int{s.cfg.maxFiles, s.cfg.maxBytes}[k]
 			what := []string{"files", "bytes"}[k]
+			if rem > uint64(limit) {
+				s.fail(q, "conservation/quota-"+what+"-handed-out-twice/overdrawn", "quota: the counter of remaining %s is %d (%d) with a limit of %d: more was handed out than the quota holds, or more was returned than was taken", what, rem, int64(rem), limit)
+				return
+			}
 			handedOut := int64(limit) - int64(rem)
 			if handedOut > int64(ub[k]) {
 				s.fail(q, "conservation/quota-"+what+"-lost", "quota: %d %s remaining of %d while the threads hold at most %d: quota was leaked or taken twice", int64(rem), what, limit, ub[k])
@@ -455,9 +491,15 @@ func (q *conc) monitor() {
 	}
 	if s.alloc != nil {
 		refs := map[uint32]int{}
+		total := 0
 		for _, fs := range s.files {
 			if fs == nil {
 				continue
+			}
+			total += blockLen(fs)
+			if s.cfg.hasQuota() && total > s.cfg.maxBytes {
+				s.fail(q, "conservation/quota-bytes-handed-out-twice/file-sizes", "the open files hold %d bytes at once, the quota is %d bytes", total, s.cfg.maxBytes)
+				return
 			}
 			_, sectors := usedSectors(fs)
 			for idx, sec := range sectors {
@@ -471,8 +513,11 @@ func (q *conc) monitor() {
 				refs[sec] = fs.id
 			}
 		}
-		if free := s.freeSectors(); free+len(refs) > s.cfg.capS {
-			s.fail(q, "conservation/sector-in-use-marked-free", "%d sectors free + %d referenced by files > capacity %d", free, len(refs), s.cfg.capS)
+		allocated := s.freeCapacity() - s.freeSectors()
+		if allocated > ub[2] {
+			s.fail(q, "conservation/sector-leak", "%d sectors are allocated while the threads hold at most %d", allocated, ub[2])
+		} else if allocated < lb[2] {
+			s.fail(q, "conservation/sector-in-use-marked-free", "%d sectors are allocated while the threads hold at least %d", allocated, lb[2])
 		}
 	}
 }
@@ -621,6 +666,9 @@ func (p *concBase) enter(label string) bool {
 	if p.q == nil {
 		return false
 	}
+	// Inside a base pool call the calling thread's local state is again a
+	// function of its script position and the global state.
+	p.q.resetAt(label)
 	if p.s.cfg.baseFaults {
 		if p.q.x.Choose(label, 2) == 1 {
 			p.q.noteFault()
